@@ -5,13 +5,26 @@ Line protocol of `sqfsmodel c06` (one request per line, one answer line):
 
   plan  FLAGS UPATH NODE…      → `<status> ev ev …`         (the plan of `unpackPlan`)
   exec  FLAGS UPATH NODE…      → `<status> sc=res … | st …` (the plan executed from a fresh R = /R)
+  main  FLAGS UPATH ROOT CWD N FSENT{N} M FAULT{M} NODE…
+                               → `exit:E est:B status:S chdir:C cwd:KEY pre:n sc=res{n} tr:m sc=res{m} | st …`
+                                 (`unpackMain`: tree_sort, mkdir_p(ROOT), chdir(ROOT), the walks, from the given file
+                                 system and working directory, with the given calls failing for reasons of the environment)
+  mkdirp PATH                  → the strings `mkdir_p(PATH)` hands to `mkdir`, in order (`mkdirPCuts`)
   monitor RPATH N FSENT{N} SC… → `<verdict> res@key …`       (the model's POSIX semantics applied to an
-                                                             *implementation* trace: specification monitor)
+                                                             *implementation* trace: specification monitor);
+                                 a call written `SC!ERRNO` is taken to have failed with ERRNO for reasons of the
+                                 environment (an unprivileged user's EPERM)
 
-FLAGS  letters of C (chmod) O (chown) X (set-xattr) T (set-times) D S F L E (no-dev/sock/fifo/slink/empty-dir), or `-`
+FLAGS  letters of C (chmod) O (chown) X (set-xattr) T (set-times) D S F L E (no-dev/sock/fifo/slink/empty-dir),
+       n (the image has no xattr table: `xattr == NULL` in main), or `-`
+ROOT   the `--unpack-root` argument in hex, `-` = the empty string, `~` = option not given
+CWD    the working directory `rdsquashfs` is started in (absolute component path)
+FAULT  `i=ERRNO`: call number `i` of the run (mkdir_p's calls, chdir, then the walks' calls) fails with ERRNO
+STATUS `ok` | `err:<kind>@<create|fill|attr>` | `err:duplicate`
 UPATH  the raw `--unpack-path` argument in hex (`-` = empty); it is canonicalised as options.c does
-NODE   preorder: `K:NAME:PAYLOAD:PERM:UID:GID:MTIME:DEV:XATTRS:NCHILDREN`, K ∈ d f l b c p s, NAME/PAYLOAD hex
-       (`-` empty), XATTRS `-` or `khex=vhex,…`; the first node is the image's root (its NAME is ignored: "")
+NODE   preorder: `K:NAME:PAYLOAD:PERM:UID:GID:MTIME:DEV:XATTRS:NCHILDREN[:COPYFAIL:XATTRFAIL[:DATASTART]]`, K ∈ d f l b c p s,
+       NAME/PAYLOAD hex (`-` empty), XATTRS `-` or `khex=vhex,…`; COPYFAIL / XATTRFAIL `-` or a number (`Attr.copyFail`,
+       `Attr.xattrFail`); the first node is the image's root (its NAME is ignored: "")
 RPATH / keys  absolute component paths: `/` or `/hex/hex…`
 FSENT  `key:d` | `key:f` | `key:l:TARGETHEX` | `key:s`
 SC     as printed by `plan`
@@ -39,9 +52,11 @@ structure Flat where
   attr : Attr
   nch : Nat
 
+def parseOptNat (s : String) : Option (Option Nat) :=
+  if s = "-" then some none else s.toNat?.map some
+
 def parseNode (tok : String) : Option Flat :=
-  match tok.splitOn ":" with
-  | [k, n, p, perm, uid, gid, mt, dev, xa, nch] => do
+  let go (k n p perm uid gid mt dev xa nch cf xf loc : String) : Option Flat := do
     let k ← kindOfTok k
     let n ← fromHex n
     let p ← fromHex p
@@ -52,7 +67,15 @@ def parseNode (tok : String) : Option Flat :=
     let mt ← mt.toNat?
     let dev ← dev.toNat?
     let nch ← nch.toNat?
-    pure ⟨n, k, p, { perm := perm, uid := uid, gid := gid, mtime := mt, devno := dev, xattrs := xa }, nch⟩
+    let cf ← parseOptNat cf
+    let xf ← parseOptNat xf
+    let loc ← loc.toNat?
+    pure ⟨n, k, p, { perm := perm, uid := uid, gid := gid, mtime := mt, devno := dev, xattrs := xa, copyFail := cf, xattrFail := xf,
+                     dataStart := loc }, nch⟩
+  match tok.splitOn ":" with
+  | [k, n, p, perm, uid, gid, mt, dev, xa, nch] => go k n p perm uid gid mt dev xa nch "-" "-" "0"
+  | [k, n, p, perm, uid, gid, mt, dev, xa, nch, cf, xf] => go k n p perm uid gid mt dev xa nch cf xf "0"
+  | [k, n, p, perm, uid, gid, mt, dev, xa, nch, cf, xf, loc] => go k n p perm uid gid mt dev xa nch cf xf loc
   | _ => none
 
 /-- rebuild the tree from its preorder listing (fuel = number of tokens) -/
@@ -80,8 +103,9 @@ def parseTree (toks : List String) : Option TNode := do
 def parseFlags (s : String) : Option (Flags × TreeFlags) :=
   if s = "-" then some ({}, {}) else
   let l := s.toList
-  if l.all (fun c => "COXTDSFLE".toList.contains c) then
-    some ({ chmod := l.contains 'C', chown := l.contains 'O', setXattr := l.contains 'X', setTimes := l.contains 'T' },
+  if l.all (fun c => "COXTDSFLEn".toList.contains c) then
+    some ({ chmod := l.contains 'C', chown := l.contains 'O', setXattr := l.contains 'X', setTimes := l.contains 'T',
+            xattrRd := !l.contains 'n' },
           { noDev := l.contains 'D', noSock := l.contains 'S', noFifo := l.contains 'F', noSlink := l.contains 'L',
             noEmpty := l.contains 'E' })
   else none
@@ -128,22 +152,52 @@ def evTok : Ev → String
 
 def errTok : Err → String
   | .duplicate => "duplicate" | .corrupted => "corrupted" | .argInvalid => "argInvalid" | .canonFail => "canonFail"
+  | .dataRead => "dataRead" | .xattrRead => "xattrRead"
 
 def errnoTok : Errno → String
   | .ENOENT => "ENOENT" | .EEXIST => "EEXIST" | .ENOTDIR => "ENOTDIR" | .ELOOP => "ELOOP"
   | .ENAMETOOLONG => "ENAMETOOLONG" | .EISDIR => "EISDIR" | .EPERM => "EPERM" | .ENXIO => "ENXIO" | .EINVAL => "EINVAL"
+  | .EACCES => "EACCES" | .ENOSPC => "ENOSPC" | .EIO => "EIO" | .EROFS => "EROFS" | .EDQUOT => "EDQUOT" | .ENOTSUP => "ENOTSUP"
+  | .ENOSYS => "ENOSYS" | .EINTR => "EINTR" | .ENOMEM => "ENOMEM" | .EMFILE => "EMFILE" | .EBUSY => "EBUSY"
+
+def parseErrno : String → Option Errno
+  | "ENOENT" => some .ENOENT | "EEXIST" => some .EEXIST | "ENOTDIR" => some .ENOTDIR | "ELOOP" => some .ELOOP
+  | "ENAMETOOLONG" => some .ENAMETOOLONG | "EISDIR" => some .EISDIR | "EPERM" => some .EPERM | "ENXIO" => some .ENXIO
+  | "EINVAL" => some .EINVAL | "EACCES" => some .EACCES | "ENOSPC" => some .ENOSPC | "EIO" => some .EIO
+  | "EROFS" => some .EROFS | "EDQUOT" => some .EDQUOT | "ENOTSUP" => some .ENOTSUP | "EOPNOTSUPP" => some .ENOTSUP
+  | "ENOSYS" => some .ENOSYS | "EINTR" => some .EINTR | "ENOMEM" => some .ENOMEM | "EMFILE" => some .EMFILE
+  | "EBUSY" => some .EBUSY
+  | _ => none
 
 def statusTok (o : Out) : String :=
   match o.err with | none => "ok" | some e => "err:" ++ errTok e
 
+/-- status with the walk in which the plan's own error arises -/
+def statusPhase (fl : Flags) (t : TNode) : String :=
+  match treeSort t with
+  | .error e => "err:" ++ errTok e
+  | .ok t' =>
+    match (restoreFstree fl t').err with
+    | some e => "err:" ++ errTok e ++ "@create"
+    | none => match (fillUnpacked ordByLoc t').err with
+      | some e => "err:" ++ errTok e ++ "@fill"
+      | none => match (updateAttribs fl t').err with
+        | some e => "err:" ++ errTok e ++ "@attr"
+        | none => "ok"
+
 /-- `get_full_hierarchy` (lookup, decode) then the plan -/
-def planFor (fl : Flags × TreeFlags) (upath : List Bytes) (raw : TNode) : Except String Out :=
+def treeFor (upath : List Bytes) (raw : TNode) : Except String TNode :=
   -- the image's root node is created with the name "" (read_tree.c: `create_node(inode, "")`)
   let raw0 := match raw with | .mk _ k p a ch => TNode.mk [] k p a ch
   match lookup raw0 upath with
   | .error .noEntry => .error "lookup:noEntry"
   | .error .notDir => .error "lookup:notDir"
-  | .ok sub => .ok (unpackPlan sub fl.1 fl.2)
+  | .ok sub => .ok sub
+
+def planFor (fl : Flags × TreeFlags) (upath : List Bytes) (raw : TNode) : Except String Out :=
+  match treeFor upath raw with
+  | .error m => .error m
+  | .ok sub => .ok (unpackPlanQ sub fl.1 fl.2)
 
 def keyTok (k : PathC) : String :=
   if k.isEmpty then "/" else String.join (k.map (fun c => "/" ++ toHexTok c))
@@ -177,6 +231,22 @@ def doExec (o : Out) : String :=
   let keys := dedup (scs.map (fun sc => rootR ++ (splitSlash sc.path)))
   statusTok o ++ String.join (tr.map (fun (sc, r) => " " ++ scTok sc ++ "=" ++ resTok r))
     ++ " |" ++ String.join (keys.map (fun k => " " ++ keyTok k ++ "@" ++ nodeTok (fs k)))
+
+def trTok (tr : List (Syscall × Option Errno)) : String :=
+  String.join (tr.map (fun (sc, r) => " " ++ scTok sc ++ "=" ++ resTok r))
+
+def parseFault (tok : String) : Option (Nat × Errno) :=
+  match tok.splitOn "=" with
+  | [i, e] => do pure ((← i.toNat?), (← parseErrno e))
+  | _ => none
+
+def faultsOf (l : List (Nat × Errno)) : Faults := fun i =>
+  match l.find? (fun x => x.1 = i) with
+  | some x => some x.2
+  | none => none
+
+def parseRoot (s : String) : Option (Option Bytes) :=
+  if s = "~" then some none else (fromHex s).map some
 
 def parseFsEnt (tok : String) : Option (PathC × Node) :=
   match tok.splitOn ":" with
@@ -212,15 +282,76 @@ def monitorGo (R : PathC) : Fs → List Syscall → Bool × List String
       let (e, t) := monitorGo R fs r      -- the implementation decides whether it goes on; its next call is next
       (e, (errnoTok er ++ "@" ++ key) :: t)
 
+def parseScF (tok : String) : Option (Syscall × Option Errno) :=
+  match tok.splitOn "!" with
+  | [sc] => do pure ((← parseSc sc), none)
+  | [sc, e] => do pure ((← parseSc sc), some (← parseErrno e))
+  | _ => none
+
+/-- like `monitorGo`, with calls the environment made fail -/
+def monitorGoF (R : PathC) : Fs → List (Syscall × Option Errno) → Bool × List String
+  | _, [] => (false, [])
+  | fs, (sc, flt) :: r =>
+    let key := match resolve fs R sc.path sc.follows with
+      | .ok (k, _) => keyTok k
+      | .error _ => "?"
+    match stepF flt fs R sc with
+    | .ok fs' =>
+      let esc := match resolve fs R sc.path sc.follows with
+        | .ok (k, _) => !isUnder R k
+        | .error _ => false
+      let (e, t) := monitorGoF R fs' r
+      (esc || e, ("0@" ++ key) :: t)
+    | .error er =>
+      let (e, t) := monitorGoF R fs r
+      (e, (errnoTok er ++ "@" ++ key) :: t)
+
 def doMonitor (toks : List String) : Option String :=
   match toks with
   | r :: n :: rest => do
     let R ← parseKey r
     let n ← n.toNat?
     let ents ← (rest.take n).mapM parseFsEnt
-    let scs ← (rest.drop n).mapM parseSc
-    let (esc, t) := monitorGo R (fsOf ents) scs
+    let scs ← (rest.drop n).mapM parseScF
+    let (esc, t) := monitorGoF R (fsOf ents) scs
     pure ((if esc then "escaped" else "confined") ++ String.join (t.map (" " ++ ·)))
+  | _ => none
+
+/-- `unpackMain` on the tree `get_full_hierarchy` returns -/
+def doMain (fl : Flags × TreeFlags) (sub : TNode) (root : Option Bytes) (cwd : PathC) (ents : List (PathC × Node))
+    (faults : List (Nat × Errno)) : String :=
+  let t := decode fl.2 sub
+  let r := unpackMain ordByLoc fl.1 t root (faultsOf faults) cwd (fsOf ents)
+  let planPaths := match treeSort t with
+    | .error _ => []
+    | .ok t' => (planSorted ordByLoc fl.1 t').syscalls.map (fun sc => r.cwd ++ splitSlash sc.path)
+  let keys := dedup (ents.map (·.1) ++ r.pre.map (fun x => cwd ++ splitSlash x.1.path) ++ [r.cwd] ++ planPaths)
+  let chd := match r.chdirRes with | none => "-" | some none => "0" | some (some e) => errnoTok e
+  s!"exit:{r.exit} est:{b2s r.established} status:{statusPhase fl.1 t} chdir:{chd} cwd:{keyTok r.cwd} pre:{r.pre.length}"
+    ++ trTok r.pre ++ s!" tr:{r.trace.length}" ++ trTok r.trace
+    ++ " |" ++ String.join (keys.map (fun k => " " ++ keyTok k ++ "@" ++ nodeTok (r.fs k)))
+
+def doMainLine (toks : List String) : Option String :=
+  match toks with
+  | fl :: up :: root :: cwd :: n :: rest => do
+    let fl ← parseFlags fl
+    let up ← parseUPath up
+    let root ← parseRoot root
+    let cwd ← parseKey cwd
+    let n ← n.toNat?
+    let ents ← (rest.take n).mapM parseFsEnt
+    match rest.drop n with
+    | m :: rest2 => do
+      let m ← m.toNat?
+      let faults ← (rest2.take m).mapM parseFault
+      let t ← parseTree (rest2.drop m)
+      match up with
+      | none => pure "invalid-path"
+      | some up =>
+        match treeFor up t with
+        | .error msg => pure msg
+        | .ok sub => pure (doMain fl sub root cwd ents faults)
+    | [] => none
   | _ => none
 
 def step (line : String) : String :=
@@ -242,6 +373,11 @@ def step (line : String) : String :=
         | .ok o => doExec o)
      | _, _, _ => "bad-op")
   | "monitor" :: toks => (doMonitor toks).getD "bad-op"
+  | "main" :: toks => (doMainLine toks).getD "bad-op"
+  | ["mkdirp", p] =>
+    (match fromHex p with
+     | none => "bad-op"
+     | some b => "cuts" ++ String.join ((mkdirPCuts b).map (fun c => " " ++ toHexTok c)))
   | _ => "bad-op"
 
 def run (_args : List String) : IO Unit := do
